@@ -7,6 +7,7 @@ CONSTANTS
   Elem = {"e", "d"}
   AsBuilt = {}
   Kinds = {"gcounter", "pncounter", "gset", "orset"}
+  CausalModes = {FALSE}
   MaxSteps = 4
 CONSTRAINT StepBound
 INVARIANTS Commutative Idempotent AssociativeSameKind StampIsJoin ClockDominates
